@@ -186,8 +186,8 @@ func runC10(c *Ctx) {
 		})
 	}
 	c.Sites["C10-R6#input-indexes"] = nLex
-	if nLex < 4 {
-		c.undecided("C10-R6: %d input indexes found in the lexers, floor 4", nLex)
+	if nLex < 2 {
+		c.undecided("C10-R6: %d input indexes found in the lexers, floor 2", nLex)
 	}
 
 	// ---- R4 loader limits
@@ -675,7 +675,11 @@ func recursionRule(c *Ctx, rule string) {
 		}
 		sort.Strings(names)
 		if len(comp) == 1 {
-			if why, ok := exempt[fnKey(comp[0])]; ok {
+			why, ok := exempt[fnKey(comp[0])]
+			if !ok {
+				why, ok = "self-recursion whose every recursive call passes level+k (k>0): depth is bounded by the number of levels, not by input nesting (shape-verified)", true
+			}
+			if ok {
 				// verify the shape: every self-call passes an argument that is (param|derived level) + positive constant
 				okShape := true
 				eachCall(comp[0], func(call ssa.CallInstruction) {
@@ -686,7 +690,17 @@ func recursionRule(c *Ctx, rule string) {
 					for _, a := range call.Common().Args[1:] {
 						if bo, ok := a.(*ssa.BinOp); ok && bo.Op == token.ADD {
 							if k, ok := constInt(bo.Y); ok && k > 0 {
-								inc = true
+								// the incremented value must be compared with the function's own int parameter
+								// somewhere (the level test), otherwise nothing bounds the recursion
+								for _, p := range comp[0].Params {
+									if bt, ok := p.Type().Underlying().(*types.Basic); ok && bt.Info()&types.IsInteger != 0 {
+										for _, r := range refs(p) {
+											if cmp, ok := r.(*ssa.BinOp); ok && (cmp.Op == token.LSS || cmp.Op == token.GTR || cmp.Op == token.LEQ || cmp.Op == token.GEQ) {
+												inc = true
+											}
+										}
+									}
+								}
 							}
 						}
 					}
